@@ -897,9 +897,15 @@ def finish(ctx, results, meta, extra_results=()):
     for k, v in meta.items():
         if k not in ("assumptions",):
             ev["coverage"][k] = v
-    os.makedirs(EVID, exist_ok=True)
-    with open(os.path.join(EVID, ctx.prop + ".json"), "w") as f:
+    evdir = EVID if not getattr(ctx, "filtered", False) else os.path.join(OUT, "partial-evidence")
+    os.makedirs(evdir, exist_ok=True)
+    with open(os.path.join(evdir, ctx.prop + ".json"), "w") as f:
         json.dump(ev, f, indent=1)
+    if ctx.tier == "thorough" and not getattr(ctx, "filtered", False):
+        # a later quick run rewrites evidence/<id>.json: keep the record of the last complete thorough run next to it
+        os.makedirs(os.path.join(EVID, "thorough"), exist_ok=True)
+        with open(os.path.join(EVID, "thorough", ctx.prop + ".json"), "w") as f:
+            json.dump(ev, f, indent=1)
     slow = sorted(results, key=lambda r: -r.wall)[:5]
     log("  slowest: " + ", ".join("%s %.0fs" % (r.ob.name, r.wall) for r in slow))
     log("SUMMARY property=%s tier=%s obligations=%d discharged=%d known=%d violations=%d inconclusive=%d wall=%.1fs solver=%.1fs" %
